@@ -240,6 +240,86 @@ def check_case(case, out, versions):
                         "features": {"why": why.split(":")[0][:30], "nontxn_over_15": nontx > 15}})
 
 
+def build_forwarder(sig, params, options):
+    """a Router whose only method takes the same (non-transaction) parameters as `sig` and hands the ABI values it
+    received - reference values included, as the instances themselves - to an inner method call"""
+    names = ["a%d" % i for i in range(len(params))]
+    ann = {}
+    for nm, k in zip(names, params):
+        ann[nm] = c09.REF_KINDS[k] if c09.is_ref(k) else abi_gen.spec(k).annotation_type()
+    ann["return"] = pt.Expr
+
+    def impl(*args):
+        return pt.InnerTxnBuilder.ExecuteMethodCall(app_id=pt.Int(9), method_signature=sig, args=list(args))
+    ns = {"__impl": impl}
+    exec("def relay(%s):\n    return __impl(%s)\n" % (", ".join(names), ", ".join(names)), ns)
+    fn = ns["relay"]
+    fn.__annotations__ = ann
+    router = pt.Router("fwd", pt.BareCallActions(no_op=pt.OnCompleteAction.create_only(pt.Approve())),
+                       clear_state=pt.Approve())
+    router.add_method_handler(pt.ABIReturnSubroutine(fn))
+    return router.compile_program(**options)[0]
+
+
+def check_forward(case, out, versions):
+    """the arguments of an OUTER method call (built by the client library) forwarded into an inner method call"""
+    cnt, oc = out["counters"], out["outcomes"]
+    params = case["params"]
+    sig = c09.method_sig("meth", params, case.get("ret"))
+    outer_sig = c09.method_sig("relay", params, None)
+    for ver in versions:
+        for oname, opts in (("default", {}), ("scratch_args", {"optimize": pt.OptimizeOptions(frame_pointers=False)}),
+                            ("slots", {"optimize": pt.OptimizeOptions(scratch_slots=True)})):
+            if oname == "scratch_args" and ver < 8:
+                continue
+
+            def viol(why, text=None):
+                out["violations"].append({
+                    "driver": "forward", "size": len(params), "title": "%s forwarded, v%d %s: %s" % (sig, ver, oname, why),
+                    "case": case, "version": ver, "forward": oname, "teal": text,
+                    "features": {"why": why.split(":")[0][:30], "driver": "forward"}})
+            try:
+                text = build_forwarder(sig, params, dict(opts, version=ver))
+            except drive.PT_ERRORS as e:
+                viol("rejected: %s" % (str(e)[:150],))
+                continue
+            except Exception as e:
+                viol("crashed: %r" % (e,))
+                continue
+            pa = asm.assemble(text)
+            for variant in (0, 1):
+                try:
+                    group, gi, expect = c09.build_group(outer_sig, params, variant)
+                except Exception:
+                    oc["client_error"] = oc.get("client_error", 0) + 1
+                    continue
+                res = interp.run(pa, interp.Ctx(mode="A", group=group, group_index=gi), fuel=100000)
+                cnt["traces_validated"] = cnt.get("traces_validated", 0) + 1
+                oc["fwd:" + res.verdict] = oc.get("fwd:" + res.verdict, 0) + 1
+                if res.verdict != "APPROVE":
+                    viol("program does not approve: %s %s (line %s)" % (res.verdict, res.why, res.line), text)
+                    continue
+                groups = [e[1] for e in res.effects if e[0] == "itxn"]
+                if len(groups) != 1:
+                    viol("%d inner groups submitted" % len(groups), text)
+                    continue
+                try:
+                    got = decode_call(sig, params, groups[0])
+                except Exception as e:
+                    viol("callee-side decoding fails: %s" % (e,), text)
+                    continue
+                for j, (k, g, (_tag, _kind, want)) in enumerate(zip(params, got, expect)):
+                    if k == "account":
+                        have = g[1]
+                    elif k in ("asset", "application"):
+                        have = g[1].to_bytes(8, "big")
+                    else:
+                        have = abi_gen.encode(k, g[1])
+                    if have != want:
+                        viol("argument %d arrives as %r, the outer call carried %r" % (j, have.hex(), want.hex()), text)
+                        break
+
+
 def negative_cases(out):
     """ill-typed arguments must be rejected when the expression is built"""
     cnt = out["counters"]
@@ -332,6 +412,8 @@ def _worker(items, base):
             fit_cases(case["fit"], out)
             continue
         check_case(case, out, _VERSIONS)
+        if case["params"] and len(case["params"]) <= 6 and not any(c09.is_txn(k) for k in case["params"]):
+            check_forward(case, out, _VERSIONS)
         out["counters"]["states"] = out["counters"].get("states", 0) + 1
         out["counters"]["transitions"] = out["counters"].get("transitions", 0) + max(1, len(case["params"]))
     if items and base % 53 == 0 and not items[0].get("negative") and "fit" not in items[0]:
@@ -372,6 +454,8 @@ def replay(case):
         out["violations"] = [v for v in out["violations"] if v["case"] == case["case"]]
     elif "params" not in case.get("case", {}):
         negative_cases(out)
+    elif case.get("forward"):
+        check_forward(case["case"], out, (case["version"],))
     else:
         check_case(case["case"], out, (case["version"],))
     for v in out["violations"][:5]:
